@@ -661,3 +661,39 @@ def numeric_field_truthiness(ctx, classes, rule="LINT-k"):
                       f"`self.{p_.attr}` is a number ({c.name}.__init__ declares it so) and is tested by truthiness: the value 0 takes the branch for `not set` "
                       f"(e.g. a line position of 0 % is dropped); test `is not None` instead")
   return n
+
+
+# (l) -------------------------------------------------------------------------------------
+def _strip_default(e):
+  if isinstance(e, ast.BoolOp) and isinstance(e.op, ast.Or) and len(e.values) == 2 and isinstance(e.values[1], ast.Constant):
+    return e.values[0]
+  return e
+
+
+def duplicate_components(ctx, modules, rule="LINT-l"):
+  """A tuple / list / set display that lists the same computed component twice (`(r.get_begin() or 0,
+  r.get_begin(), ...)`) or a dict display with the same key twice: the second occurrence adds nothing,
+  so a key built this way does not tell apart what the missing component would have, and a table built
+  this way silently loses the first entry.  Type subscripts (`Tuple[X, X]`) are not displays."""
+  n = 0
+  for m in _iter_modules(ctx, modules):
+    for node in ast.walk(m.tree):
+      dup = None
+      if isinstance(node, (ast.Tuple, ast.List, ast.Set)) and len(node.elts) >= 2 and isinstance(getattr(node, "ctx", ast.Load()), ast.Load):
+        par = parent(node)
+        if isinstance(par, ast.Subscript) and par.slice is node:
+          continue
+        txt = [unparse(_strip_default(e)) for e in node.elts if any(isinstance(x, (ast.Call, ast.Attribute)) for x in ast.walk(_strip_default(e)))]
+        dup = sorted({t for t in txt if txt.count(t) > 1})
+        what = "component"
+      elif isinstance(node, ast.Dict):
+        txt = [unparse(k) for k in node.keys if k is not None]
+        dup = sorted({t for t in txt if txt.count(t) > 1})
+        what = "key"
+      if dup:
+        n += 1
+        ctx.bad(rule, f"{ctx.ix.scope_name(m, node)}|{what} `{dup[0]}` listed twice", ctx.where(m, node),
+                f"`{short(node, 90)}` lists the {what} `{dup[0]}` twice: " +
+                ("the later entry silently replaces the earlier one" if what == "key" else
+                 "the repetition stands where a different component belongs, so values that differ only in that component are treated as the same"))
+  return n
